@@ -537,6 +537,11 @@ func expandRequestData(testCase *conformancev1.TestCase) error {
 				padding := make([]byte, delta)
 				bytesVal = append(bytesVal, padding...)
 			} else {
+				if int64(len(bytesVal))+delta < 0 {
+					// can't remove that many bytes; even w/out any padding the message is too big
+					return fmt.Errorf("request message #%d: can't shrink to exactly %d bytes; without padding it is %d",
+						i+1, totalSize, size-len(bytesVal))
+				}
 				bytesVal = bytesVal[:len(bytesVal)+int(delta)]
 			}
 			reflectReq.Set(field, protoreflect.ValueOfBytes(bytesVal))
